@@ -133,7 +133,7 @@ def _run_case(case, ctx):
                 sel = sorted(rs.choice(order, size=k, replace=False).tolist())
                 kf = int(rs.randint(1, order))
                 fx = sorted(rs.choice(order - 1, size=min(kf, order - 1), replace=False).tolist())
-                opts["nn_modes"] = set(sel)
+                opts["nn_modes"] = set(sel) if rs.rand() < 0.5 else list(sel)
                 opts["fixed_modes"] = fx if rs.rand() < 0.7 else tuple(fx)
                 declared = sel
                 if init_kind != "user":
@@ -276,6 +276,20 @@ def _run_case(case, ctx):
             ctx.count("arrays_checked")
             if _neg(w):
                 bad("weights", w)
+                return
+    if which.startswith("nn_modes+fixed") and algo == "nn_parafac_hals":
+        # history: the caller keeps its nn_modes container and calls again without fixed modes: the declaration still stands
+        o2 = {k: v for k, v in opts.items() if k != "fixed_modes"}
+        ctx.count("second_call_same_nn_modes_container")
+        with warnings.catch_warnings():
+            warnings.simplefilter("ignore")
+            r2 = decomp.run(algo, data, rank, max(n_iter, 1), o2, seed, tol=1e-100, init=init)
+        w2, fs2 = decomp.snapshot(r2["decomp"])
+        for m in declared:
+            ctx.count("arrays_checked")
+            if _neg(fs2[m]):
+                ctx.violation("C10:%s:negative-factor:%s" % (algo, "nn_modes-container-reused+iterN"), "second call with the caller's nn_modes container (now without fixed modes) returned a "
+                              "negative entry (min %r) in declared mode %d; the container now reads %r" % (float(np.nanmin(fs2[m])), m, o2.get("nn_modes")), {"desc": desc})
                 return
     for name, mn, isnan in _LIVE.pop("bad", []):
         ctx.violation("C10:%s:inner-solver-%s:%s" % (algo, name, icls), "inner solver %s returned %s (min %r) during %s" % (name, "NaN" if isnan else "a negative entry", mn, algo), desc)
